@@ -1,1 +1,527 @@
+(* Roots/ProofsInv.v — the invariant behind C03 and C13 and its preservation by every
+   disciplined operation. *)
+From Coq Require Import Lia ZifyBool ZifyN ZifyNat.
 From HostdBase Require Import Base.
+From HostdRoots Require Import Model Lists ProofsReplay.
+Open Scope N_scope.
+
+(** * success of the store methods, spelled out *)
+
+Lemma ok_any_fault A (m : M A) fault a k' :
+  fok m -> m fault = Ok (a, k') -> m None = Ok (a, None).
+Proof.
+  intros [H1 H2] E. destruct fault as [k|].
+  - specialize (H2 k). now rewrite E in H2.
+  - now rewrite (H1 _ _ E) in E.
+Qed.
+
+Lemma store_add1_ok d id c d' k :
+  store_add1 d id c None = Ok (d', k) ->
+  alookup id (t1 d) = None /\ d' = set_t1 d (aset id c (t1 d)).
+Proof.
+  cbv [store_add1 transaction mbind stmt ret lift].
+  destruct (alookup id (t1 d)); [discriminate|].
+  now intros [= <- _].
+Qed.
+
+Lemma store_add2_ok d id c d' k :
+  store_add2 d id c None = Ok (d', k) ->
+  alookup id (t2 d) = None /\ d' = set_t2 d (aset id c (t2 d)).
+Proof.
+  cbv [store_add2 transaction mbind stmt ret lift].
+  destruct (alookup id (t2 d)); [discriminate|].
+  now intros [= <- _].
+Qed.
+
+Lemma store_revise1_ok d id nrev nfsize nmroot old acts d' k :
+  store_revise1 d id nrev nfsize nmroot old acts None = Ok (d', k) ->
+  exists c t', alookup id (t1 d) = Some c /\
+    store_replay (stored d) (rows c) old acts None = Ok (t', None) /\
+    d' = set_t1 d (aset id (with_rows (with_rev c nrev nfsize nmroot) t') (t1 d)).
+Proof.
+  cbv [store_revise1 transaction mbind stmt ret lift].
+  destruct (alookup id (t1 d)) as [c|]; [|discriminate].
+  destruct (store_replay (stored d) (rows c) old acts None) as [[t' k1]| |] eqn:E; try discriminate.
+  pose proof (proj1 (fok_store_replay (stored d) acts (rows c) old) _ _ E) as ->.
+  intros [= <- _]. now exists c, t'.
+Qed.
+
+Lemma store_revise2_ok d id c old new d' k :
+  store_revise2 d id c old new None = Ok (d', k) ->
+  exists e t', alookup id (t2 d) = Some e /\
+    v2_diff (stored d) (rows e) old new None = Ok (t', None) /\
+    d' = set_t2 d (aset id (with_rows (with_rv2 e c) t') (t2 d)).
+Proof.
+  cbv [store_revise2 transaction mbind stmt ret lift].
+  destruct (alookup id (t2 d)) as [e|]; [|discriminate].
+  destruct (v2_diff (stored d) (rows e) old new None) as [[t' k1]| |] eqn:E; try discriminate.
+  pose proof (proj1 (fok_v2_diff (stored d) (rows e) old new) _ _ E) as ->.
+  intros [= <- _]. now exists e, t'.
+Qed.
+
+Lemma store_renew1_ok d old new crev cfsize cmroot nc d' k :
+  store_renew1 d old new crev cfsize cmroot nc None = Ok (d', k) ->
+  alookup new (t1 d) = None /\
+  exists c, alookup old (aset new nc (t1 d)) = Some c /\
+    d' = set_t1 d (move_rows old new (link_from old new
+           (aset old (with_to (with_rev c crev cfsize cmroot) (Some new)) (aset new nc (t1 d))))).
+Proof.
+  cbv [store_renew1 transaction mbind stmt ret lift].
+  destruct (alookup new (t1 d)); [discriminate|].
+  destruct (alookup old (aset new nc (t1 d))) as [c|]; [|discriminate].
+  intros [= <- _]. split; [reflexivity|]. now exists c.
+Qed.
+
+Lemma store_renew2_ok d old new nc d' k :
+  store_renew2 d old new nc None = Ok (d', k) ->
+  alookup new (t2 d) = None /\
+  exists c, alookup old (aset new nc (t2 d)) = Some c /\
+    d' = set_t2 d (move_rows old new (link_from old new
+           (aset old (with_to c (Some new)) (aset new nc (t2 d))))).
+Proof.
+  cbv [store_renew2 transaction mbind stmt ret lift].
+  destruct (alookup new (t2 d)); [discriminate|].
+  destruct (alookup old (aset new nc (t2 d))) as [c|]; [|discriminate].
+  intros [= <- _]. split; [reflexivity|]. now exists c.
+Qed.
+
+Lemma store_get_ok t id c k : store_get t id None = Ok (c, k) -> alookup id t = Some c /\ k = None.
+Proof.
+  cbv [store_get transaction mbind stmt ret lift].
+  destruct (alookup id t); [|discriminate]. now intros [= <- <-].
+Qed.
+
+(* the table after a renewal, by lookups *)
+Lemma renew_lookup (t : list (cid * ct)) old new (oc nc : ct) :
+  old <> new -> alookup new t = None ->
+  let t' := move_rows old new (link_from old new (aset old oc (aset new nc t))) in
+  (forall x, alookup x t' =
+     if x =? old then Some (with_rows oc [])
+     else if x =? new then Some (with_rows (with_from nc (Some old)) (rows oc))
+     else alookup x t) /\
+  (NoDup (map fst t) -> NoDup (map fst t')).
+Proof.
+  intros Hne Hnew t'. subst t'.
+  assert (Eno : (new =? old) = false) by lia. assert (Eon : (old =? new) = false) by lia.
+  unfold link_from. rewrite alookup_aset, Eno, alookup_aset, N.eqb_refl.
+  unfold move_rows. rewrite Eon.
+  repeat (rewrite ?alookup_aset, ?N.eqb_refl, ?Eon, ?Eno; cbn iota).
+  split.
+  - intros x. rewrite !alookup_aset.
+    destruct (x =? old) eqn:E1; [reflexivity|]. destruct (x =? new) eqn:E2; reflexivity.
+  - intros ND. repeat apply NoDup_aset. exact ND.
+Qed.
+
+(** * the invariant *)
+
+Section Inv.
+Variable meta : list root -> hash.
+
+Definition live_ok (l : list root) (c : ct) : Prop :=
+  rows c = tbl_of l /\ fsize c = sector_size * nlen l /\ mroot c = meta l.
+
+(* one contract row against the served lists [g] and its table [t] *)
+Definition entry_ok (v1 : bool) (g : cid -> list root) (t : list (cid * ct)) (id : cid) (c : ct) : Prop :=
+  match rto c with
+  | None => live_ok (g id) c
+  | Some d => rows c = [] /\ (v1 = true -> rev c = max_rev) /\ d <> id /\
+              exists c', alookup d t = Some c' /\ rfrom c' = Some id
+  end /\
+  (forall p, rfrom c = Some p -> exists cp, alookup p t = Some cp /\ rto cp = Some id).
+
+Definition tab_ok (v1 : bool) (g : cid -> list root) (t : list (cid * ct)) : Prop :=
+  NoDup (map fst t) /\ forall id c, alookup id t = Some c -> entry_ok v1 g t id c.
+
+Definition upd_ok (s : state) : Prop :=
+  forall u x, alookup u (upds s) = Some x ->
+    (exists c, alookup (u_cid x) (t1 (dbs s)) = Some c /\ rto c = None) /\
+    u_old x = cache_get s (u_cid x) /\
+    fold_upd (u_old x) (u_acts x) = Ok (u_roots x) /\
+    (forall u' x', alookup u' (upds s) = Some x' -> u_cid x' = u_cid x -> u' = u).
+
+Record Inv (s : state) : Prop := {
+  inv_t1 : tab_ok true (cache_get s) (t1 (dbs s));
+  inv_t2 : tab_ok false (cache_get s) (t2 (dbs s));
+  inv_disj : forall id, alookup id (t1 (dbs s)) <> None -> alookup id (t2 (dbs s)) = None;
+  inv_cdom : forall id, alookup id (cache s) <> None ->
+             alookup id (t1 (dbs s)) <> None \/ alookup id (t2 (dbs s)) <> None;
+  inv_upd : upd_ok s;
+  inv_unodup : NoDup (map fst (upds s)) }.
+
+(** * discipline: what the RHP handlers guarantee about their calls, and what the
+   oracle fields of an operation mean *)
+
+Definition no_upd_on (s : state) (id : cid) : Prop :=
+  forall u x, alookup u (upds s) = Some x -> u_cid x <> id.
+
+Definition disc (s : state) (o : op) : Prop :=
+  match o with
+  | Form1 id _ ffsize fmroot _ => alookup id (t2 (dbs s)) = None /\ ffsize = 0 /\ fmroot = meta []
+  | Form2 id c => alookup id (t1 (dbs s)) = None /\ r2_fsize c = 0 /\ r2_mroot c = meta []
+  | Unlock1 id => mem id (locks s) = true /\ no_upd_on s id
+  | Open1 u id =>
+      mem id (locks s) = true /\ no_upd_on s id /\ alookup u (upds s) = None /\
+      exists c, alookup id (t1 (dbs s)) = Some c /\ rev c <> max_rev
+  | Commit1 u _ nfsize nmroot _ =>
+      forall x, alookup u (upds s) = Some x ->
+        nfsize = sector_size * nlen (u_roots x) /\ nmroot = meta (u_roots x)
+  | Renew1 old new _ _ _ _ _ _ _ mold _ =>
+      mem old (locks s) = true /\ no_upd_on s old /\ alookup new (t2 (dbs s)) = None /\
+      (exists c, alookup old (t1 (dbs s)) = Some c /\ rev c <> max_rev) /\
+      mold = meta (cache_get s old)
+  | Revise2 _ _ newroots mnew _ _ _ => mnew = meta newroots
+  | Renew2 old new _ mold _ _ =>
+      alookup new (t1 (dbs s)) = None /\ mold = meta (cache_get s old) /\
+      (* new = old.V2RenewalID(): a contract has one renewal id *)
+      (forall e d, alookup old (t2 (dbs s)) = Some e -> rto e = Some d -> new = d)
+  | RawRevise1 _ _ _ _ _ _ _ => False
+  | RawRevise2 _ _ _ _ _ => False
+  | _ => True
+  end.
+
+Fixpoint disc_run (s : state) (ops : list op) : Prop :=
+  match ops with
+  | [] => True
+  | o :: rest => disc s o /\ disc_run (fst (step s o)) rest
+  end.
+
+Definition runs (s : state) (ops : list op) : state := fold_left (fun s o => fst (step s o)) ops s.
+
+(** * helper lemmas on tables *)
+
+Lemma tab_ok_ext v1 g g' t :
+  (forall id c, alookup id t = Some c -> rto c = None -> g id = g' id) ->
+  tab_ok v1 g t -> tab_ok v1 g' t.
+Proof.
+  intros Hg [ND H]; split; [exact ND|]. intros id c L. specialize (H id c L).
+  unfold entry_ok in *. destruct H as [H1 H2]; split; [|exact H2].
+  destruct (rto c) eqn:R; [exact H1|]. rewrite <- (Hg id c L R). exact H1.
+Qed.
+
+Definition gset (g : cid -> list root) (k : cid) (l : list root) : cid -> list root :=
+  fun x => if x =? k then l else g x.
+
+(* rewrite one live row *)
+Lemma tab_ok_update v1 g t id c c' l :
+  tab_ok v1 g t -> alookup id t = Some c -> rto c = None ->
+  rto c' = None -> rfrom c' = rfrom c -> live_ok l c' ->
+  tab_ok v1 (gset g id l) (aset id c' t).
+Proof.
+  intros [ND H] L R R' F' LO. split; [now apply NoDup_aset|].
+  intros x cx Lx. rewrite alookup_aset in Lx. unfold gset.
+  destruct (x =? id) eqn:E.
+  - apply N.eqb_eq in E; subst x. injection Lx as <-.
+    unfold entry_ok. cbn beta. rewrite N.eqb_refl, R'. split; [exact LO|].
+    intros p Fp. rewrite F' in Fp. destruct (H id c L) as [_ H2].
+    destruct (H2 p Fp) as (cp & Lp & Tp). exists cp. split; [|exact Tp].
+    rewrite alookup_aset. destruct (p =? id) eqn:Ep; [|exact Lp].
+    apply N.eqb_eq in Ep; subst p. rewrite L in Lp. injection Lp as <-. congruence.
+  - destruct (H x cx Lx) as [H1 H2]. unfold entry_ok in *. cbn beta. rewrite E. split.
+    + destruct (rto cx) as [d|] eqn:Rx; [|exact H1].
+      destruct H1 as (Hr & Hm & Hd & c2 & L2 & F2). repeat split; auto.
+      rewrite alookup_aset. destruct (d =? id) eqn:Ed.
+      * apply N.eqb_eq in Ed; subst d. rewrite L in L2. injection L2 as <-.
+        exists c'. split; [reflexivity|]. now rewrite F'.
+      * exists c2. now split.
+    + intros p Fp. destruct (H2 p Fp) as (cp & Lp & Tp). exists cp. split; [|exact Tp].
+      rewrite alookup_aset. destruct (p =? id) eqn:Ep; [|exact Lp].
+      apply N.eqb_eq in Ep; subst p. rewrite L in Lp. injection Lp as <-. congruence.
+Qed.
+
+(* insert a new live, unlinked row *)
+Lemma tab_ok_insert v1 g t id c :
+  tab_ok v1 g t -> alookup id t = None ->
+  rto c = None -> rfrom c = None -> live_ok (g id) c ->
+  tab_ok v1 g (aset id c t).
+Proof.
+  intros [ND H] L R F LO. split; [now apply NoDup_aset|].
+  intros x cx Lx. rewrite alookup_aset in Lx.
+  destruct (x =? id) eqn:E.
+  - apply N.eqb_eq in E; subst x. injection Lx as <-.
+    unfold entry_ok. rewrite R, F. split; [exact LO|discriminate].
+  - destruct (H x cx Lx) as [H1 H2]. unfold entry_ok in *. split.
+    + destruct (rto cx) as [d|] eqn:Rx; [|exact H1].
+      destruct H1 as (Hr & Hm & Hd & c2 & L2 & F2). repeat split; auto.
+      exists c2. split; [|exact F2]. rewrite alookup_aset.
+      destruct (d =? id) eqn:Ed; [|exact L2]. apply N.eqb_eq in Ed; subst d. congruence.
+    + intros p Fp. destruct (H2 p Fp) as (cp & Lp & Tp). exists cp. split; [|exact Tp].
+      rewrite alookup_aset. destruct (p =? id) eqn:Ep; [|exact Lp].
+      apply N.eqb_eq in Ep; subst p. congruence.
+Qed.
+
+(* the renewal: [old] live becomes linked and empty, [new] takes its rows *)
+Lemma tab_ok_renew v1 g t t' old new (c oc nc : ct) :
+  tab_ok v1 g t -> old <> new -> alookup new t = None -> alookup old t = Some c -> rto c = None ->
+  rto oc = Some new -> rfrom oc = rfrom c -> rows oc = rows c -> (v1 = true -> rev oc = max_rev) ->
+  rto nc = None -> fsize nc = sector_size * nlen (g old) -> mroot nc = meta (g old) ->
+  NoDup (map fst t') ->
+  (forall x, alookup x t' =
+     if x =? old then Some (with_rows oc [])
+     else if x =? new then Some (with_rows (with_from nc (Some old)) (rows oc))
+     else alookup x t) ->
+  tab_ok v1 (gset g new (g old)) t'.
+Proof.
+  intros [ND H] Hne Lnew Lold Rc Roc Foc Rows Hrev Rnc Fs Mr ND' LK.
+  assert (Eno : (new =? old) = false) by lia. assert (Eon : (old =? new) = false) by lia.
+  destruct (H old c Lold) as [Hlive Hfrom]. unfold entry_ok in Hlive; rewrite Rc in Hlive.
+  destruct Hlive as (Hrows & _ & _).
+  split; [exact ND'|]. intros x cx Lx. rewrite LK in Lx. unfold gset.
+  destruct (x =? old) eqn:E1; [|destruct (x =? new) eqn:E2].
+  - apply N.eqb_eq in E1; subst x. injection Lx as <-.
+    unfold entry_ok. cbn [with_rows rto rfrom rows rev]. rewrite Roc. split.
+    + repeat split; auto.
+      eexists. split; [rewrite LK, Eno, N.eqb_refl; reflexivity|reflexivity].
+    + intros p Fp. rewrite Foc in Fp. destruct (Hfrom p Fp) as (cp & Lp & Tp).
+      exists cp. split; [|exact Tp]. rewrite LK.
+      destruct (p =? old) eqn:Ep.
+      { apply N.eqb_eq in Ep; subst p. rewrite Lold in Lp. injection Lp as <-. congruence. }
+      destruct (p =? new) eqn:Ep2; [|exact Lp].
+      apply N.eqb_eq in Ep2; subst p. congruence.
+  - apply N.eqb_eq in E2; subst x. injection Lx as <-.
+    unfold entry_ok. cbn [with_rows with_from rto rfrom rows fsize mroot]. cbn beta.
+    rewrite N.eqb_refl, Rnc. split.
+    + unfold live_ok. cbn [rows fsize mroot]. rewrite Rows. auto.
+    + intros p [= <-]. eexists. split; [rewrite LK, N.eqb_refl; reflexivity|exact Roc].
+  - destruct (H x cx Lx) as [H1 H2]. unfold entry_ok in *. cbn beta. rewrite E2. split.
+    + destruct (rto cx) as [d|] eqn:Rx; [|exact H1].
+      destruct H1 as (Hr & Hm & Hd & c2 & L2 & F2). repeat split; auto.
+      rewrite LK. destruct (d =? old) eqn:Ed.
+      * apply N.eqb_eq in Ed; subst d. rewrite Lold in L2. injection L2 as <-.
+        eexists. split; [reflexivity|]. cbn [with_rows rfrom]. now rewrite Foc.
+      * destruct (d =? new) eqn:Ed2.
+        { apply N.eqb_eq in Ed2; subst d. congruence. }
+        exists c2. now split.
+    + intros p Fp. destruct (H2 p Fp) as (cp & Lp & Tp). exists cp. split; [|exact Tp].
+      rewrite LK. destruct (p =? old) eqn:Ep.
+      { apply N.eqb_eq in Ep; subst p. rewrite Lold in Lp. injection Lp as <-. congruence. }
+      destruct (p =? new) eqn:Ep2; [|exact Lp].
+      apply N.eqb_eq in Ep2; subst p. congruence.
+Qed.
+
+(** * small facts about the state *)
+
+Lemma cache_get_aset s k l x c :
+  cache_get (set_cache s (aset k l c)) x =
+  if x =? k then l else match alookup x c with Some m => m | None => [] end.
+Proof. unfold cache_get; cbn [cache set_cache]. rewrite alookup_aset. now destruct (x =? k). Qed.
+
+Lemma fold_upd_snoc l acts a l1 l2 :
+  fold_upd l acts = Ok l1 -> upd_apply l1 a = Ok l2 -> fold_upd l (acts ++ [a]) = Ok l2.
+Proof.
+  revert l; induction acts as [|b acts IH]; intros l H1 H2; cbn in *.
+  - injection H1 as <-. now rewrite H2.
+  - destruct (upd_apply l b) as [l'| |]; cbn in *; try discriminate. now apply IH.
+Qed.
+
+Lemma NoDup_aremove V k (l : list (N * V)) : NoDup (map fst l) -> NoDup (map fst (aremove k l)).
+Proof.
+  induction l as [|[k' v] t IH]; cbn; [auto|]. intros ND. inversion ND as [|? ? Hn ND']; subst.
+  destruct (k =? k'); [exact ND'|]. cbn. constructor; [|now apply IH].
+  intros Hin. apply Hn. clear -Hin. induction t as [|[k2 v2] t IH]; cbn in *; [tauto|].
+  destruct (k =? k2); cbn in *; [now right|]. destruct Hin; [now left|right; auto].
+Qed.
+
+(* a v1 row that is not at the maximum revision number has not been renewed *)
+Lemma not_max_live s id c :
+  Inv s -> alookup id (t1 (dbs s)) = Some c -> rev c <> max_rev -> rto c = None.
+Proof.
+  intros I L R. destruct (proj2 (inv_t1 s I) id c L) as [H _].
+  destruct (rto c); [|reflexivity]. destruct H as (_ & Hm & _). now specialize (Hm eq_refl).
+Qed.
+
+(** * Restart: the loaded cache *)
+
+Lemma load_tab_lookup id : forall t acc, NoDup (map fst t) ->
+  alookup id (load_tab t acc) =
+  match alookup id t with
+  | Some c => match rows c with [] => alookup id acc | _ => Some (tbl_list (rows c)) end
+  | None => alookup id acc
+  end.
+Proof.
+  induction t as [|[k c] t IH]; intros acc ND; cbn [load_tab alookup map fst] in *; [reflexivity|].
+  inversion ND as [|? ? Hn ND']; subst. rewrite IH by exact ND'.
+  destruct (id =? k) eqn:E.
+  - apply N.eqb_eq in E; subst k.
+    assert (Hno : alookup id t = None).
+    { destruct (alookup id t) eqn:L; [|reflexivity]. apply alookup_In in L.
+      exfalso; apply Hn. change id with (fst (id, c0)). now apply in_map. }
+    rewrite Hno. destruct (rows c); [reflexivity|]. now rewrite alookup_aset_same.
+  - destruct (alookup id t) as [c'|] eqn:L.
+    + destruct (rows c'); [|reflexivity].
+      destruct (rows c); [reflexivity|]. rewrite alookup_aset_other; [reflexivity|]. lia.
+    + destruct (rows c); [reflexivity|]. rewrite alookup_aset_other; [reflexivity|]. lia.
+Qed.
+
+Lemma cache_get_load s id : Inv s ->
+  cache_get {| dbs := dbs s; cache := load (dbs s); upds := []; locks := []; height := height s |} id =
+  match alookup id (t1 (dbs s)), alookup id (t2 (dbs s)) with
+  | Some c, _ => tbl_list (rows c)
+  | None, Some c => tbl_list (rows c)
+  | None, None => []
+  end.
+Proof.
+  intros I. unfold cache_get, load; cbn [cache].
+  rewrite load_tab_lookup by exact (proj1 (inv_t2 s I)).
+  rewrite load_tab_lookup by exact (proj1 (inv_t1 s I)). cbn [alookup].
+  destruct (alookup id (t1 (dbs s))) as [c1|] eqn:L1.
+  - rewrite (inv_disj s I id) by congruence. now destruct (rows c1).
+  - destruct (alookup id (t2 (dbs s))) as [c2|]; [|reflexivity]. now destruct (rows c2).
+Qed.
+
+
+(** * preservation, operation by operation *)
+
+Lemma cache_get_same s s' : cache s' = cache s -> forall x, cache_get s' x = cache_get s x.
+Proof. intros H x; unfold cache_get; now rewrite H. Qed.
+
+Lemma cache_get_upd s s' k l : cache s' = aset k l (cache s) ->
+  forall x, cache_get s' x = if x =? k then l else cache_get s x.
+Proof. intros H x; unfold cache_get; rewrite H, alookup_aset. now destruct (x =? k). Qed.
+
+(* tables and cache untouched *)
+Lemma inv_frame s s' :
+  Inv s -> t1 (dbs s') = t1 (dbs s) -> t2 (dbs s') = t2 (dbs s) -> cache s' = cache s ->
+  upd_ok s' -> NoDup (map fst (upds s')) -> Inv s'.
+Proof.
+  intros I E1 E2 Ec U N. pose proof (cache_get_same s s' Ec) as G.
+  constructor; auto; rewrite ?E1, ?E2, ?Ec.
+  - eapply tab_ok_ext; [|exact (inv_t1 s I)]. intros; now rewrite G.
+  - eapply tab_ok_ext; [|exact (inv_t2 s I)]. intros; now rewrite G.
+  - exact (inv_disj s I).
+  - exact (inv_cdom s I).
+Qed.
+
+Lemma upd_ok_frame s s' :
+  upd_ok s -> t1 (dbs s') = t1 (dbs s) -> cache s' = cache s -> upds s' = upds s -> upd_ok s'.
+Proof.
+  intros U E1 Ec Eu u x L. rewrite Eu in L. destruct (U u x L) as (H1 & H2 & H3 & H4).
+  rewrite E1, (cache_get_same s s' Ec), Eu. auto.
+Qed.
+
+Lemma inv_simple s s' :
+  Inv s -> t1 (dbs s') = t1 (dbs s) -> t2 (dbs s') = t2 (dbs s) -> cache s' = cache s ->
+  upds s' = upds s -> Inv s'.
+Proof.
+  intros I E1 E2 Ec Eu. apply (inv_frame s s' I E1 E2 Ec).
+  - now apply (upd_ok_frame s s' (inv_upd s I)).
+  - rewrite Eu. exact (inv_unodup s I).
+Qed.
+
+Lemma inv_open1 s u id : Inv s -> disc s (Open1 u id) -> Inv (fst (step s (Open1 u id))).
+Proof.
+  intros I (_ & Hno & Hu & c & Lc & Rc). cbn [step fst].
+  apply (inv_frame s); try reflexivity; auto.
+  - intros u' x L. cbn [upds set_upds dbs cache] in *. rewrite alookup_aset in L.
+    unfold cache_get at 1; cbn [cache set_upds].
+    destruct (u' =? u) eqn:E.
+    + apply N.eqb_eq in E; subst u'. injection L as <-. cbn [u_cid u_old u_acts u_roots].
+      repeat split.
+      * exists c. split; [exact Lc|]. now apply (not_max_live s id c I).
+      * intros u2 x2 L2 Ec. rewrite alookup_aset in L2.
+        destruct (u2 =? u) eqn:E2; [lia|]. exfalso. now apply (Hno u2 x2 L2).
+    + destruct (inv_upd s I u' x L) as (H1 & H2 & H3 & H4). repeat split; auto.
+      intros u2 x2 L2 Ec. rewrite alookup_aset in L2.
+      destruct (u2 =? u) eqn:E2; [|now apply (H4 u2 x2)].
+      injection L2 as <-. cbn [u_cid] in Ec. exfalso. now apply (Hno u' x L).
+  - cbn [upds set_upds]. apply NoDup_aset. exact (inv_unodup s I).
+Qed.
+
+Lemma inv_act s u a : Inv s -> Inv (fst (step s (Act u a))).
+Proof.
+  intros I. cbn [step]. destruct (alookup u (upds s)) as [x|] eqn:L; [|exact I].
+  destruct (upd_apply (u_roots x) a) as [l'|e|] eqn:A; cbn [fst]; try exact I.
+  destruct (inv_upd s I u x L) as (H1 & H2 & H3 & H4).
+  apply (inv_frame s); try reflexivity; auto.
+  - intros u' x' L'. cbn [upds set_upds dbs cache] in *. rewrite alookup_aset in L'.
+    unfold cache_get at 1; cbn [cache set_upds].
+    destruct (u' =? u) eqn:E.
+    + apply N.eqb_eq in E; subst u'. injection L' as <-. cbn [u_cid u_old u_acts u_roots].
+      repeat split; auto.
+      * eapply fold_upd_snoc; eauto.
+      * intros u2 x2 L2 Ec. rewrite alookup_aset in L2.
+        destruct (u2 =? u) eqn:E2; [lia|]. now apply (H4 u2 x2).
+    + destruct (inv_upd s I u' x' L') as (G1 & G2 & G3 & G4). repeat split; auto.
+      intros u2 x2 L2 Ec. rewrite alookup_aset in L2.
+      destruct (u2 =? u) eqn:E2; [|now apply (G4 u2 x2)].
+      injection L2 as <-. cbn [u_cid] in Ec. exfalso.
+      assert (u' = u) by (apply (H4 u' x' L'); congruence). lia.
+  - cbn [upds set_upds]. apply NoDup_aset. exact (inv_unodup s I).
+Qed.
+
+Lemma inv_close1 s u : Inv s -> Inv (fst (step s (Close1 u))).
+Proof.
+  intros I. cbn [step fst]. apply (inv_frame s); try reflexivity; auto.
+  - intros u' x L. cbn [upds set_upds dbs cache] in *.
+    unfold cache_get at 1; cbn [cache set_upds].
+    destruct (N.eq_dec u' u) as [->|Hne].
+    + rewrite alookup_aremove_same in L by exact (inv_unodup s I). discriminate.
+    + rewrite alookup_aremove_other in L by exact Hne.
+      destruct (inv_upd s I u' x L) as (G1 & G2 & G3 & G4). repeat split; auto.
+      intros u2 x2 L2 Ec. destruct (N.eq_dec u2 u) as [->|Hne2].
+      * rewrite alookup_aremove_same in L2 by exact (inv_unodup s I). discriminate.
+      * rewrite alookup_aremove_other in L2 by exact Hne2. now apply (G4 u2 x2).
+  - cbn [upds set_upds]. apply NoDup_aremove. exact (inv_unodup s I).
+Qed.
+
+(* a new contract row whose id no updater refers to *)
+Lemma upd_ok_t1_insert s d' id c :
+  upd_ok s -> alookup id (t1 (dbs s)) = None -> t1 d' = aset id c (t1 (dbs s)) ->
+  upd_ok (set_dbs s d').
+Proof.
+  intros U Ln E u x L. cbn [upds set_dbs] in L. destruct (U u x L) as ((c0 & L0 & R0) & H2 & H3 & H4).
+  cbn [dbs set_dbs upds]. unfold cache_get; cbn [cache set_dbs]. fold (cache_get s (u_cid x)).
+  repeat split; auto. exists c0. split; [|exact R0]. rewrite E, alookup_aset.
+  destruct (u_cid x =? id) eqn:Ex; [|exact L0]. apply N.eqb_eq in Ex. congruence.
+Qed.
+
+Lemma cache_absent s id : Inv s ->
+  alookup id (t1 (dbs s)) = None -> alookup id (t2 (dbs s)) = None -> cache_get s id = [].
+Proof.
+  intros I L1 L2. unfold cache_get. destruct (alookup id (cache s)) eqn:E; [|reflexivity].
+  destruct (inv_cdom s I id); congruence.
+Qed.
+
+Lemma inv_form1 s id frev ffsize fmroot ws :
+  Inv s -> disc s (Form1 id frev ffsize fmroot ws) -> Inv (fst (step s (Form1 id frev ffsize fmroot ws))).
+Proof.
+  intros I (L2 & -> & ->). cbn [step]. unfold outcome.
+  match goal with |- context [store_add1 ?d ?i ?c None] => destruct (store_add1 d i c None) as [[d' k]|e|] eqn:E end;
+    cbn [fst]; try exact I.
+  apply store_add1_ok in E as [L1 ->].
+  pose proof (cache_absent s id I L1 L2) as Cg.
+  constructor; cbn [dbs set_dbs set_t1 t1 t2 cache upds].
+  - eapply tab_ok_ext; [|apply (tab_ok_insert true (cache_get s)); [exact (inv_t1 s I)|exact L1|reflexivity|reflexivity|]].
+    + intros; reflexivity.
+    + rewrite Cg. repeat split; cbn [rows fsize mroot]; reflexivity || lia.
+  - exact (inv_t2 s I).
+  - intros x Hx. rewrite alookup_aset in Hx. destruct (x =? id) eqn:Ex.
+    + apply N.eqb_eq in Ex; now subst.
+    + now apply (inv_disj s I).
+  - intros x Hx. destruct (inv_cdom s I x Hx) as [H|H]; [left|now right].
+    rewrite alookup_aset. destruct (x =? id); [discriminate|exact H].
+  - eapply (upd_ok_t1_insert s); [exact (inv_upd s I)|exact L1|reflexivity].
+  - exact (inv_unodup s I).
+Qed.
+
+Lemma inv_form2 s id c :
+  Inv s -> disc s (Form2 id c) -> Inv (fst (step s (Form2 id c))).
+Proof.
+  intros I (L1 & Hf & Hm). cbn [step]. unfold outcome.
+  destruct (store_add2 (dbs s) id (ct_of_rv2 c) None) as [[d' k]|e|] eqn:E; cbn [fst]; try exact I.
+  apply store_add2_ok in E as [L2 ->].
+  pose proof (cache_absent s id I L1 L2) as Cg.
+  constructor; cbn [dbs set_dbs set_t2 t1 t2 cache upds].
+  - exact (inv_t1 s I).
+  - eapply tab_ok_ext; [|apply (tab_ok_insert false (cache_get s)); [exact (inv_t2 s I)|exact L2|reflexivity|reflexivity|]].
+    + intros; reflexivity.
+    + rewrite Cg. repeat split; cbn [rows fsize mroot ct_of_rv2]; auto; try (rewrite Hf; reflexivity).
+  - intros x Hx. rewrite alookup_aset. destruct (x =? id) eqn:Ex.
+    + apply N.eqb_eq in Ex; subst. congruence.
+    + now apply (inv_disj s I).
+  - intros x Hx. destruct (inv_cdom s I x Hx) as [H|H]; [now left|right].
+    rewrite alookup_aset. destruct (x =? id); [discriminate|exact H].
+  - intros u x L. destruct (inv_upd s I u x L) as (H1 & H2 & H3 & H4). repeat split; auto.
+  - exact (inv_unodup s I).
+Qed.
+
+End Inv.
